@@ -679,10 +679,14 @@ class CallGraph:
         """every simple store `<expr>.attr = rhs` in the universe -> [(Func, Assign)]"""
         if not hasattr(self, "_attr_store_index"):
             idx = {}
-            for g in self.funcs.values():
+            for g in list(self.funcs.values()):
                 for n in own_nodes(g.node):
-                    if isinstance(n, ast.Assign) and len(n.targets) == 1 and isinstance(n.targets[0], ast.Attribute):
-                        idx.setdefault(n.targets[0].attr, []).append((g, n))
+                    if isinstance(n, ast.Assign):
+                        for tg in n.targets:
+                            if isinstance(tg, ast.Attribute):
+                                # a one-target view of the (possibly chained) assignment
+                                view = n if len(n.targets) == 1 else ast.Assign(targets=[tg], value=n.value)
+                                idx.setdefault(tg.attr, []).append((g, view))
             self._attr_store_index = idx
         return self._attr_store_index.get(attr, [])
 
@@ -1296,6 +1300,7 @@ class Bounds:
         self._ret = {}
         self._locals_cache = {}
         self._fold_cache = {}
+        self._setattr_busy = False
 
     # ---- constants -----------------------------------------------------------
     def _local_names(self, f: Func):
@@ -1406,12 +1411,56 @@ class Bounds:
                         elif isinstance(n, ast.Call) and isinstance(n.func, ast.Name) and n.func.id == "setattr" and len(n.args) >= 2:
                             a0, a1 = n.args[0], n.args[1]
                             if isinstance(a0, ast.Name) and a0.id == sn and not (isinstance(a1, ast.Constant) and a1.value != attr):
-                                out.append((m, n, n, None, None))
+                                names = self._setattr_names(a1, g)
+                                if names is None or attr in names:
+                                    out.append((m, n, n, None, None))
                         for t, v, i in tgts:
                             if isinstance(t, ast.Attribute) and t.attr == attr and isinstance(t.value, ast.Name) and t.value.id == sn:
                                 out.append((m, n, t, v, i))
-        self._attr[key] = out
+        if not self._setattr_busy:
+            self._attr[key] = out
         return out
+
+    def _setattr_names(self, name_expr, g: Func):
+        """possible attribute names of `setattr(self, <name_expr>, v)` when the name is the loop variable of a
+        `for name, ... in zip(CONST, ...)` / `for name in CONST` loop over a constant table; None = unknown"""
+        if not isinstance(name_expr, ast.Name):
+            return None
+        if self._setattr_busy:
+            return set()   # optimistic inside the recursion; validated by the outer call below
+        n = name_expr
+        while n is not None and n is not g.node:
+            n = parent(n)
+            if isinstance(n, (ast.For, ast.comprehension)) and any(isinstance(x, ast.Name) and x.id == name_expr.id for x in ast.walk(n.target)):
+                it = n.iter
+                src = None
+                tg = n.target
+                if isinstance(it, ast.Call) and isinstance(it.func, ast.Name) and it.func.id == "zip" and isinstance(tg, (ast.Tuple, ast.List)):
+                    for i, x in enumerate(tg.elts):
+                        if isinstance(x, ast.Name) and x.id == name_expr.id and i < len(it.args):
+                            src = it.args[i]
+                elif isinstance(tg, ast.Name):
+                    src = it
+                if src is None:
+                    return None
+                self._setattr_busy = True
+                try:
+                    v = self.fold(src, g)
+                finally:
+                    self._setattr_busy = False
+                names = None
+                if isinstance(v, (list, tuple)) and all(isinstance(x, str) for x in v):
+                    names = set(v)
+                elif isinstance(v, dict) and all(isinstance(x, str) for x in v):
+                    names = set(v)
+                if names is None:
+                    return None
+                # the table must not name an attribute it was computed from
+                used = {x.attr for x in ast.walk(src) if isinstance(x, ast.Attribute)}
+                if names & used:
+                    return None
+                return names
+        return None
 
     # ---- intervals -------------------------------------------------------------
     def eval(self, e, f: Func, depth=0, subst=None):
@@ -1617,19 +1666,75 @@ class Bounds:
             if isinstance(recv, ast.Name) and recv.id == "struct" and f.module.imports.get("struct") == ("struct", None) and call.args:
                 v = self.fold(call.args[0], f)
                 return v if isinstance(v, str) else None
-            if isinstance(recv, ast.Subscript):
-                # packer["fmt"].unpack(...): the DalvikPacker idiom -- struct.Struct(endian + fmt)
-                base = recv.value
-                if self.is_packer(base, f):
-                    v = self.fold(recv.slice, f)
-                    if isinstance(v, str):
-                        return "<" + v
+            return self.struct_fmt(recv, f)
+        return None
+
+    def struct_fmt(self, e, f: Func, depth=0):
+        """e evaluates to a struct.Struct object -> its format (byte order explicit), else None.
+        Understood: PACKER[fmt] (DalvikPacker idiom), struct.Struct(fmt), a local / self attribute / class
+        constant / module constant holding one of these."""
+        if depth > 4:
+            return None
+        if isinstance(e, ast.Subscript):
+            if self.is_packer(e.value, f):
+                v = self.fold(e.slice, f)
+                if isinstance(v, str):
+                    return "<" + v
+            return None
+        if isinstance(e, ast.Call):
+            r = self.cg.resolve_callable(e.func, f)
+            if r and r[0] == "external" and r[1] in ("struct.Struct", "Struct") and e.args:
+                v = self.fold(e.args[0], f)
+                return v if isinstance(v, str) else None
+            return None
+        if isinstance(e, ast.Name):
+            if parent(e) is not None and e.id in self._local_names(f):
+                dd = self.cg.dominating_def(e, f)
+                if dd is not None:
+                    return self.struct_fmt(dd, f, depth + 1)
+                rhs = [x for x in self.cg._assignments_to_name(f, e.id)]
+                if len(rhs) == 1 and isinstance(rhs[0], ast.AST):
+                    return self.struct_fmt(rhs[0], f, depth + 1)
                 return None
-            if isinstance(recv, ast.Call):
-                r = self.cg.resolve_callable(recv.func, f)
-                if r and r[0] == "external" and r[1] in ("struct.Struct", "Struct") and recv.args:
-                    v = self.fold(recv.args[0], f)
-                    return v if isinstance(v, str) else None
+            r = f.module.resolve_name(e.id)
+            if r and r[0] == "const":
+                g = self._module_ctx(r[1])
+                return self.struct_fmt(r[2], g, depth + 1) if g is not None else None
+            return None
+        if isinstance(e, ast.Attribute) and isinstance(e.value, ast.Name):
+            sn = self.cg.self_name(f)
+            cls = None
+            if sn is not None and e.value.id == sn:
+                cls = self.cg.type_of(e.value, f)
+            else:
+                r = f.module.resolve_name(e.value.id) if e.value.id not in self._local_names(f) else None
+                if r and r[0] == "class":
+                    cls = r[1]
+            if isinstance(cls, Cls):
+                ca = cls.lookup_attr(e.attr)
+                if ca is not None and not self._stored(cls, e.attr):
+                    g = self._module_ctx(cls.module)
+                    return self.struct_fmt(ca, g, depth + 1) if g is not None else None
+        return None
+
+    def _module_ctx(self, module):
+        """a pseudo function context for expressions at module / class level"""
+        k = ("modctx", module.relpath)
+        if k not in self._attr:
+            node = ast.FunctionDef(name="<module>", args=ast.arguments(posonlyargs=[], args=[], kwonlyargs=[], kw_defaults=[], defaults=[]),
+                                   body=[ast.Pass()], decorator_list=[], lineno=0, col_offset=0)
+            self._attr[k] = Func(module, "<module>", node, None)
+        return self._attr[k]
+
+    def struct_size(self, e, f: Func):
+        """`X.size` with X a struct object -> its byte size"""
+        if isinstance(e, ast.Attribute) and e.attr == "size":
+            fmt = self.struct_fmt(e.value, f)
+            if fmt is not None:
+                try:
+                    return struct.calcsize(fmt)
+                except struct.error:
+                    return None
         return None
 
     def is_packer(self, base, f: Func):
@@ -1833,10 +1938,11 @@ class SState:
     """abstract state: per stream key the position interval relative to the base point and the
     number of anchored checked bytes; `saved` maps expression text -> (key, lo, hi) for values known
     to equal base_position(key) + [lo, hi]."""
-    __slots__ = ("pos", "anch", "saved", "kend", "tok", "stok", "absp")
+    __slots__ = ("pos", "anch", "saved", "kend", "tok", "stok", "absp", "inv")
 
-    def __init__(self, pos=None, anch=None, saved=None, kend=None, tok=None, stok=None, absp=None):
+    def __init__(self, pos=None, anch=None, saved=None, kend=None, tok=None, stok=None, absp=None, inv=None):
         self.absp = absp or {}   # key -> (parameter name, lo, hi): position == value of that parameter + [lo, hi]
+        self.inv = inv or {}     # key -> text: the stream was put at a loop-invariant absolute position (same in every iteration)
         self.pos = pos or {}
         self.anch = anch or {}
         self.saved = saved or {}
@@ -1845,7 +1951,8 @@ class SState:
         self.stok = stok or {}   # saved name -> token of its stream at the time the value was taken
 
     def copy(self):
-        return SState(dict(self.pos), dict(self.anch), dict(self.saved), dict(self.kend), dict(self.tok), dict(self.stok), dict(self.absp))
+        return SState(dict(self.pos), dict(self.anch), dict(self.saved), dict(self.kend), dict(self.tok), dict(self.stok), dict(self.absp),
+                      dict(self.inv))
 
     def p(self, key):
         return self.pos.get(key, ZERO)
@@ -1890,6 +1997,8 @@ def s_join(a, b):
     for k in set(a.absp) & set(b.absp):
         if a.absp[k][0] == b.absp[k][0]:
             out.absp[k] = (a.absp[k][0], min(a.absp[k][1], b.absp[k][1]), max(a.absp[k][2], b.absp[k][2]))
+    for k in set(a.inv) & set(b.inv):
+        out.inv[k] = a.inv[k]
     return out
 
 
@@ -1949,6 +2058,35 @@ class Summary:
 
 
 STREAM_METHODS = ("read", "seek", "tell")
+
+
+class PathOracle:
+    """enumerates the branch decisions of the `if` statements met by successive abstract runs (depth first):
+    each run follows exactly one syntactic path through the ifs that are not inside inner loops."""
+
+    def __init__(self):
+        self.decisions = []
+        self.i = 0
+
+    def next(self):
+        if self.i < len(self.decisions):
+            d = self.decisions[self.i]
+        else:
+            d = True
+            self.decisions.append(True)
+        self.i += 1
+        return d
+
+    def advance(self):
+        """prepare the next path; False when all paths were enumerated"""
+        self.decisions = self.decisions[: self.i]
+        while self.decisions and self.decisions[-1] is False:
+            self.decisions.pop()
+        if not self.decisions:
+            return False
+        self.decisions[-1] = False
+        self.i = 0
+        return True
 
 
 class StreamAnalysis:
@@ -2056,10 +2194,33 @@ class StreamAnalysis:
         key, nexpr, rcall = rd
         n = self.b.fold(nexpr, f)
         if not isinstance(n, int) or isinstance(n, bool):
+            n = self.b.struct_size(nexpr, f)
+        if not isinstance(n, int) or isinstance(n, bool):
             return None
         if n != size or n <= 0:
             return None
         return (key, n, rcall)
+
+    def opaque_unpack(self, call, f: Func):
+        """an `.unpack(S.read(..))`-shaped call whose format / size could not be established:
+        it may or may not be a checked read -> key of the stream, else None"""
+        if not isinstance(call, ast.Call) or not CallGraph._is_unpack_call(call) or not call.args:
+            return None
+        if self.checked_read(call, f) is not None:
+            return None
+        rd = self._as_read(call.args[-1], f)
+        if rd is None:
+            return None
+        fmt = self.b.unpack_fmt(call, f)
+        if fmt is not None:
+            try:
+                size = struct.calcsize(fmt)
+            except struct.error:
+                return rd[0]
+            n = self.b.fold(rd[1], f)
+            if isinstance(n, int) and not isinstance(n, bool):
+                return None  # fully understood and simply not a matching read (n != size): unpack always raises or never checks
+        return rd[0]
 
     def _as_read(self, arg, f: Func):
         """arg is `S.read(N)` or a name whose dominating definition is `S.read(N)` -> (key, N expr, call node)"""
@@ -2176,13 +2337,15 @@ class StreamAnalysis:
         return all(m.name == "__init__" for m, *_ in self.b._stores(cls, attr))
 
     # ------------------------------------------------------------------ loop bodies
-    def loop_effect(self, f: Func, loop, counters=None, collections=None):
+    def loop_effect(self, f: Func, loop, counters=None, collections=None, oracle=None, inv_test=None):
         """abstract effect of ONE iteration of `loop` (ast.While / ast.For / comprehension parent):
         -> (state at the back edge or None if the body never reaches it, run object).  Base point:
         the loop head (position when the test / next() is evaluated)."""
         run = _Run(self, f)
         run.counters = dict(counters or {})
         run.collections = set(collections or ())
+        run.oracle = oracle
+        run.inv_test = inv_test
         st = SState()
         if isinstance(loop, ast.While):
             st = run.expr(loop.test, st)
@@ -2195,9 +2358,10 @@ class StreamAnalysis:
             raise AnalysisError("loop_effect: unsupported loop node %s" % type(loop).__name__)
         return back, run, out
 
-    def comp_effect(self, f: Func, comp_expr, gen_index=0):
+    def comp_effect(self, f: Func, comp_expr, gen_index=0, oracle=None):
         """one iteration of generator `gen_index` of a comprehension expression"""
         run = _Run(self, f)
+        run.oracle = oracle
         st = run.comp_body(comp_expr, gen_index, SState())
         return st, run
 
@@ -2224,6 +2388,10 @@ class _Run:
         self.seen_states = {}   # id(node) -> joined state before the node (on demand via sa.hooks)
         self._read_before = {}  # id(read call) -> (key, position interval before the read) of the latest evaluation
         self._fkeys = None
+        self.loose = []         # events after which positions are no longer exact knowledge (reasons, for the verdict policy)
+        self.oracle = None      # PathOracle: follow ONE branch of every `if` that is not inside an inner loop
+        self.loop_depth = 0
+        self.inv_test = None    # callable(expr) -> bool: expr is invariant for the loop under analysis
         self.cut = set()        # id(stmt): the path ends here (treated like raise)
         self.assume_true = set()  # id(test expr): loops/ifs with this test never take the false edge
         self.skip_calls = set()   # id(call): the call is treated as having no stream effect
@@ -2235,18 +2403,22 @@ class _Run:
         st.pos[key] = p
         st.tok[key] = _new_token()
         st.absp.pop(key, None)
+        st.inv.pop(key, None)
         for lw in self.lows:
             lw[key] = min(lw.get(key, INF), p[0])
 
     def _advance(self, st, key, d, low=None):
         p = st.p(key)
         ab = st.absp.get(key)
+        iv_ = st.inv.get(key)
         if low is not None:
             for lw in self.lows:
                 lw[key] = min(lw.get(key, INF), p[0] + low)
         self._setpos(st, key, iv_add(p, d))
         if ab is not None:
             st.absp[key] = (ab[0], ab[1] + d[0], ab[2] + d[1])
+        if iv_ is not None:
+            st.inv[key] = iv_   # reading / stepping from an invariant position is the same in every iteration
 
     def _kill(self, st, text):
         """`text` (a name or dotted attribute) is re-bound"""
@@ -2255,6 +2427,8 @@ class _Run:
                 del st.saved[n]
         for k in list(st.keys()):
             if k == text or k.startswith(text + "."):
+                if not k.startswith("#"):
+                    self.loose.append("`%s` is re-bound" % k)
                 self._setpos(st, k, TOP)
         for k in list(st.kend):
             if k == text or k.startswith(text + "."):
@@ -2479,8 +2653,12 @@ class _Run:
                     pass
                 elif fn.attr in ("clear", "discard"):
                     self._advance(st, k, (-INF, 0))
+                elif fn.attr in ("append", "appendleft", "insert", "push"):
+                    self._advance(st, k, (1, 1))
+                elif fn.attr in ("add", "setdefault"):
+                    self._advance(st, k, (0, 1))
                 else:
-                    self._setpos(st, k, TOP)
+                    self._advance(st, k, (0, INF))
         return st
 
     # ------------------------------------------------------------------ statements
@@ -2581,6 +2759,10 @@ class _Run:
                     self._setpos(ne, key, (p[0] + 1, max(p[1], p[0] + 1)))
                     if tk is not None:
                         ne.tok[key] = tk  # knowledge was refined, the stream did not move
+            if self.oracle is not None and self.loop_depth == 0:
+                if self.oracle.next():
+                    return self.block(s.body, st_t)
+                return self.block(s.orelse, st_f) if s.orelse else Out(fall=st_f)
             a = self.block(s.body, st_t)
             b = self.block(s.orelse, st_f) if s.orelse else Out(fall=st_f)
             return Out(s_join(a.fall, b.fall), s_join(a.brk, b.brk), s_join(a.cont, b.cont), s_join(a.ret, b.ret))
@@ -2679,6 +2861,9 @@ class _Run:
             return isinstance(v, list) and len(v) >= 1
         if isinstance(it, (ast.List, ast.Tuple)) and it.elts:
             return True
+        if isinstance(it, (ast.Name, ast.Attribute)):
+            v = self.b.fold(it, self.f)
+            return isinstance(v, (list, tuple, dict, set, frozenset, str, bytes)) and len(v) >= 1
         return False
 
     def _loop(self, s, st, test=None, target=None, at_least_once=False):
@@ -2688,11 +2873,22 @@ class _Run:
         ret = None
         if at_least_once:
             t = self._bind(target, None, head.copy(), None) if target is not None else head.copy()
-            o = self.block(s.body, t)
+            self.loop_depth += 1
+            try:
+                o = self.block(s.body, t)
+            finally:
+                self.loop_depth -= 1
             brk, ret = o.brk, o.ret
             head = s_join(o.fall, o.cont)
             if head is None:
                 return Out(fall=brk, ret=ret)
+        self.loop_depth += 1
+        try:
+            return self._loop_inner(s, head, test, target, infinite, brk, ret)
+        finally:
+            self.loop_depth -= 1
+
+    def _loop_inner(self, s, head, test, target, infinite, brk, ret):
         for i in range(self.MAX_ITER):
             t = head.copy()
             if test is not None:
@@ -2713,6 +2909,7 @@ class _Run:
             head = s_widen(head, new) if i >= 1 else new
         else:
             # did not stabilise: give up precision
+            self.loose.append("inner loop did not stabilise")
             head = s_widen(head, SState({k: TOP for k in head.keys()}, {k: 0 for k in head.keys()}, {}))
         ex = None
         if not infinite:
@@ -2849,6 +3046,13 @@ class _Run:
         return res
 
     def comp_gen(self, e, i, st):
+        self.loop_depth += 1
+        try:
+            return self._comp_gen(e, i, st)
+        finally:
+            self.loop_depth -= 1
+
+    def _comp_gen(self, e, i, st):
         g = e.generators[i]
         st = self.expr(g.iter, st)
         if st is None:
@@ -2898,6 +3102,9 @@ class _Run:
                     st.anch[key] = st.a(key) + n
                 self._setpos(st, key, (p[0] + n, p[1]))
                 return st
+        ok_ = self.sa.opaque_unpack(e, f)
+        if ok_ is not None:
+            self.loose.append("`%s` may or may not be a checked read (format/size not established)" % ast.unparse(e)[:70])
         fn = e.func
         if isinstance(fn, ast.Attribute) and fn.attr in STREAM_METHODS and self.sa.is_stream_recv(fn.value, f):
             key = self.sa.key_of(fn.value, f)
@@ -2932,6 +3139,7 @@ class _Run:
         if kind == "unknown" and not ts:
             passed = self._stream_args(e, st)
             self.unknown_calls.append(e)
+            self.loose.append("call of a computed value `%s`" % ast.unparse(e)[:60])
             if passed:
                 self.unresolved.append(e)
                 for k in passed:
@@ -3002,6 +3210,8 @@ class _Run:
             return st
         if mode == 1:
             d = self.b.eval(e.args[0], self.f)
+            if d[0] == -INF or d[1] == INF:
+                self.loose.append("relative seek by `%s` is not understood" % ast.unparse(e.args[0])[:60])
             self._advance(st, key, d)
             return st
         if mode == 0:
@@ -3013,8 +3223,13 @@ class _Run:
                 pt = self._param_target(e.args[0])
                 if pt is not None:
                     st.absp[key] = pt
+                if self.inv_test is not None and self.inv_test(e.args[0]):
+                    st.inv[key] = ast.unparse(e.args[0])
+                else:
+                    self.loose.append("seek target `%s` is not understood" % ast.unparse(e.args[0])[:60])
             return st
         self._setpos(st, key, TOP)
+        self.loose.append("seek relative to the end of the stream")
         return st
 
     def _param_target(self, e):
@@ -3068,6 +3283,7 @@ class _Run:
             for k in self._stream_args(e, st):
                 self._setpos(st, k, TOP)
                 self.touches = True
+                self.loose.append("stream `%s` handed to code outside the repository (`%s`)" % (k, name))
         return st
 
     def _arg_for_param(self, e: ast.Call, tgt: Func, pname, kind):
@@ -3132,6 +3348,7 @@ class _Run:
             self.seek_events += 1
         if summ.unresolved:
             self.unresolved += [e]
+            self.loose.append("%s contains an unresolved call" % tgt.qualname)
         sn = self.cg.self_name(tgt)
         mapping = {}
         recv = self._receiver_text(e, tgt, kind)
@@ -3167,12 +3384,15 @@ class _Run:
                     self._setpos(st, k, TOP)
                 continue
             low = rest[0] if rest else min(lo, 0)
+            if lo == -INF:
+                self.loose.append("effect of %s on `%s` is not known" % (tgt.qualname, k))
             p = before.p(k)
             if p[0] >= 0 and anch:
                 st.anch[k] = st.a(k) + anch
             self._advance(st, k, (lo, hi), low=low)
         if summ.wild:
             self.wild = True
+            self.loose.append("%s may reposition a stream it holds" % tgt.qualname)
             mapped = set(mapping.values())
             for k in list(st.keys()):
                 if k in mapped:
